@@ -1,6 +1,76 @@
 import CkbVerif.Driver.Util
+import CkbVerif.Model.Cache
+
+/-! Line-protocol driver for C14 (protocol: see harness/n14/src/c14.rs).
+
+```
+max <cycles>                                   block cycle limit of the case                     → ok
+blk <w>:<timeRel>:<capOk>:<cycles|x>:<fee>;…   one verified block: its non-cellbase transactions → ok fees=… cycles=… | err <class>
+warm <w>:…                                     a block verified inside an attempt that failed later (results dropped, cache kept) → ok
+clear                                          the node's verification cache is emptied           → ok
+```
+The model keeps the verification cache and answers each `blk` through the *cached* path; the
+transaction content (`capOk`, cycles, fee) on the line comes from full verifications.
+-/
 namespace CkbVerif.Driver.C14
-def main (_args : List String) : IO UInt32 := do
-  IO.eprintln "C14: model driver not implemented"
-  return 2
+open CkbVerif.Driver CkbVerif.Cache
+
+structure TxD where
+  w : Nat
+  tr : Bool
+  cap : Bool
+  cyc : Option Nat
+  fee : Nat
+
+structure DS where
+  max : Nat := 0
+  cache : VCache := []
+
+def parseTx (s : String) : Option TxD :=
+  match s.splitOn ":" with
+  | [w, tr, cap, cyc, fee] => do
+    let w ← parseNat? w
+    let fee ← parseNat? fee
+    pure { w := w, tr := tr == "1", cap := cap == "1", cyc := parseNat? cyc, fee := fee }
+  | _ => none
+
+def parseTxs (s : String) : List TxD :=
+  if s == "-" then [] else (s.splitOn ";").filterMap parseTx
+
+/-- the content oracle of one line -/
+def contentOf (txs : List TxD) : Content :=
+  { capacityOk := fun w => match txs.find? (·.w == w) with | some t => t.cap | none => true
+    script := fun w => match txs.find? (·.w == w) with | some t => t.cyc | none => none
+    fee := fun w => match txs.find? (·.w == w) with | some t => some t.fee | none => none }
+
+/-- `BlockTxsVerifier::verify`: every transaction through the cached path against the cache as
+fetched at the start; on success all results are put, then the cycle sum is checked -/
+def blockVerify (max : Nat) (c : VCache) (txs : List TxD) : VCache × String :=
+  let k := contentOf txs
+  let rs := txs.map fun t => (t.w, cached k max c t.tr t.w)
+  match rs.find? (fun r => match r.2 with | .error _ => true | .ok _ => false) with
+  | some (_, .error e) =>
+    (c, "err " ++ (match e with | .timeRelative => "timerel" | .capacity => "capacity" | .script => "script" | .fee => "fee"))
+  | _ =>
+    let oks := rs.filterMap fun r => match r.2 with | .ok e => some (r.1, e) | .error _ => none
+    let c' := oks.foldl (fun acc (r : Nat × Completed) => (r.1, r.2) :: acc.filter (fun x => x.1 != r.1)) c
+    let sum := (oks.map (·.2.cycles)).sum
+    if sum > max then (c', "err cycles")
+    else (c', s!"ok fees={showNatList (oks.map (·.2.fee))} cycles={showNatList (oks.map (·.2.cycles))}")
+
+def step (s : DS) (ts : List String) : DS × String :=
+  match ts with
+  | ["max", m] => ({ s with max := (parseNat? m).getD 0 }, "ok")
+  | ["blk", txs] =>
+    let (c', out) := blockVerify s.max s.cache (parseTxs txs)
+    ({ s with cache := c' }, out)
+  | ["warm", txs] =>
+    let (c', _) := blockVerify s.max s.cache (parseTxs txs)
+    ({ s with cache := c' }, "ok")
+  | ["clear"] => ({ s with cache := [] }, "ok")
+  | _ => (s, "bad-op")
+
+def main (_args : List String) : IO UInt32 :=
+  runLines ({} : DS) step
+
 end CkbVerif.Driver.C14
